@@ -4,6 +4,7 @@ import (
 	"flag"
 	"fmt"
 	"os"
+	"os/exec"
 	"path/filepath"
 	"runtime/debug"
 	"runtime/pprof"
@@ -79,6 +80,9 @@ func cmdCheck(args []string) (code int) {
 	r := newReport(*prop, *tier, seed)
 	p := loadProgram(abs, "", nil)
 	f(p, r)
+	if *tier == "thorough" {
+		thorough(*prop, abs, *verif, r, f, p)
+	}
 	return r.finish(*verif)
 }
 
@@ -177,4 +181,118 @@ func runFsproto(p *Program, only string) (*fsRules, []fsRun) {
 		c.runProtocol(&runs)
 	}
 	return rules, runs
+}
+
+func resetCaches() {
+	fsCache = nil
+	compactCache = nil
+	writeSetCache = nil
+}
+
+// thorough adds to the quick analysis: (1) mutation sensitivity - every seeded
+// change recorded for this property under seeded/ is applied to a scratch copy
+// of the current working tree and the same analysis must report a violation
+// there; (2) for the file-protocol properties an advisory run under the
+// I/O-fault model.  Neither can turn the verdict: a missed seed is reported
+// as SELFTEST-MISS in the evidence.
+func thorough(prop, repo, verif string, r *Report, f checkFunc, p *Program) {
+	if _, isFs := fsRuleSets[prop]; isFs {
+		rules := newFsRules()
+		c := newFsClient(p, rules)
+		c.faults = true
+		var runs []fsRun
+		eps := fsEntryPoints(p)
+		sort.SliceStable(eps, func(i, j int) bool {
+			return funcKey(eps[i]) == "(*Stack).AutoCompact" && funcKey(eps[j]) != "(*Stack).AutoCompact"
+		})
+		func() {
+			defer func() {
+				if e := recover(); e != nil {
+					r.Advisory = append(r.Advisory, fmt.Sprintf("fault-model run aborted: %v", e))
+				}
+			}()
+			for _, fn := range eps {
+				c.runEntry(fn, &runs)
+			}
+			c.runProtocol(&runs)
+		}()
+		seen := map[string]bool{}
+		for _, a := range rules.adv {
+			if !seen[a] {
+				seen[a] = true
+				r.Advisory = append(r.Advisory, a)
+			}
+		}
+		sort.Strings(r.Advisory)
+		r.Stats["fault_model.advisories"] = len(r.Advisory)
+	}
+	seeds, _ := filepath.Glob(filepath.Join(verif, "seeded", prop+"-*", "patch.diff"))
+	sort.Strings(seeds)
+	var results []map[string]interface{}
+	fired := 0
+	for _, patch := range seeds {
+		id := filepath.Base(filepath.Dir(patch))
+		res := map[string]interface{}{"seed": id}
+		tmp, err := os.MkdirTemp("", "rsa-selftest-")
+		if err != nil {
+			res["skipped"] = err.Error()
+			results = append(results, res)
+			continue
+		}
+		func() {
+			defer os.RemoveAll(tmp)
+			out, err := exec.Command("git", "-C", repo, "ls-files").Output()
+			if err != nil {
+				res["skipped"] = "git ls-files: " + err.Error()
+				return
+			}
+			for _, rel := range strings.Fields(string(out)) {
+				b, err := os.ReadFile(filepath.Join(repo, rel))
+				if err != nil {
+					continue
+				}
+				os.MkdirAll(filepath.Dir(filepath.Join(tmp, rel)), 0o755)
+				os.WriteFile(filepath.Join(tmp, rel), b, 0o644)
+			}
+			ap := exec.Command("git", "apply", patch)
+			ap.Dir = tmp
+			if msg, err := ap.CombinedOutput(); err != nil {
+				res["skipped"] = "patch no longer applies to the current tree: " + strings.TrimSpace(string(msg))
+				return
+			}
+			func() {
+				defer func() {
+					if e := recover(); e != nil {
+						res["analysis_error"] = fmt.Sprint(e)
+						res["fired"] = true // the analysis refuses the tree: not a silent pass
+					}
+				}()
+				resetCaches()
+				p2 := loadProgram(tmp, "", nil)
+				r2 := newReport(prop, "quick", 0)
+				f(p2, r2)
+				var rules []string
+				rs := map[string]bool{}
+				for _, v := range r2.Viol {
+					if !rs[v.Rule] {
+						rs[v.Rule] = true
+						rules = append(rules, v.Rule)
+					}
+				}
+				sort.Strings(rules)
+				res["fired"] = len(r2.Viol) > 0 || len(r2.Floors) > 0
+				res["rules"] = rules
+			}()
+		}()
+		if b, _ := res["fired"].(bool); b {
+			fired++
+		} else if _, sk := res["skipped"]; !sk {
+			fmt.Printf("SELFTEST-MISS property=%s seed=%s\n", prop, id)
+		}
+		results = append(results, res)
+	}
+	resetCaches()
+	r.Stats["selftest.seeds"] = len(seeds)
+	r.Stats["selftest.fired"] = fired
+	r.Samples = append(r.Samples, map[string]interface{}{"mutation_sensitivity": results})
 }
